@@ -8,9 +8,9 @@ CONSTANTS
   MODE = "res"
   Fails <- Fail02
   MAXHOST = 2
-  BUG_CREATE_LEAK = TRUE
-  BUG_PROBE_LEAK = TRUE
-  BUG_DOTS = TRUE
+  BUG_CREATE_LEAK = FALSE
+  BUG_PROBE_LEAK = FALSE
+  BUG_DOTS = FALSE
   DirN <- Dir02
   MAXSEEK = 1000
   SPECIAL_A = FALSE
